@@ -184,6 +184,7 @@ func (s *Skiplist) NewLevel(randFn func() float32) int {
 
 	level := int(atomic.LoadInt32(&s.level))
 	if nextLevel > level {
+		verifYield(vpSlNewLevel, unsafe.Pointer(s), nil, level)
 		if atomic.CompareAndSwapInt32(&s.level, int32(level), int32(level+1)) {
 			nextLevel = level + 1
 		} else {
@@ -216,20 +217,26 @@ func (s *Skiplist) findPath(itm unsafe.Pointer, cmp CompareFn,
 	var cmpVal = 1
 
 retry:
+	verifYield(vpSlFindStart, unsafe.Pointer(s), nil, 0)
 	prev := s.head
 	level := int(atomic.LoadInt32(&s.level))
 	for i := level; i >= 0; i-- {
+		verifYield(vpSlLevel, unsafe.Pointer(s), unsafe.Pointer(prev), i)
 		curr, _ := prev.getNext(i)
 	levelSearch:
 		for {
+			verifYield(vpSlFindNode, unsafe.Pointer(s), unsafe.Pointer(curr), i)
 			next, deleted := curr.getNext(i)
 			for deleted {
+				verifYield(vpSlHelp, unsafe.Pointer(s), unsafe.Pointer(curr), i)
 				if !s.helpDelete(i, prev, curr, next, sts) {
 					sts.AddUint64(&sts.readConflicts, 1)
 					goto retry
 				}
 
+				verifYield(vpSlReload, unsafe.Pointer(s), unsafe.Pointer(prev), i)
 				curr, _ = prev.getNext(i)
+				verifYield(vpSlReload2, unsafe.Pointer(s), unsafe.Pointer(curr), i)
 				next, deleted = curr.getNext(i)
 			}
 
@@ -308,6 +315,7 @@ retry:
 	}
 
 	// Now node is part of the skiplist
+	verifYield(vpSlPublish, unsafe.Pointer(s), unsafe.Pointer(x), 0)
 	if !buf.preds[0].dcasNext(0, buf.succs[0], x, false, false) {
 		sts.AddUint64(&sts.insertConflicts, 1)
 		goto retry
@@ -317,6 +325,7 @@ retry:
 	for i := 1; i <= int(itemLevel); i++ {
 	fixThisLevel:
 		for {
+			verifYield(vpSlOwnLoad, unsafe.Pointer(s), unsafe.Pointer(x), i)
 			nodeNext, deleted := x.getNext(i)
 			next := buf.succs[i]
 
@@ -327,6 +336,7 @@ retry:
 				goto finished
 			}
 
+			verifYield(vpSlPredCAS, unsafe.Pointer(s), unsafe.Pointer(x), i)
 			if buf.preds[i].dcasNext(i, next, x, false, false) {
 				break fixThisLevel
 			}
@@ -347,12 +357,15 @@ func (s *Skiplist) softDelete(delNode *Node, sts *Stats) bool {
 
 	targetLevel := delNode.Level()
 	for i := targetLevel; i >= 0; i-- {
+		verifYield(vpSlMarkLoad, unsafe.Pointer(s), unsafe.Pointer(delNode), i)
 		next, deleted := delNode.getNext(i)
 		for !deleted {
+			verifYield(vpSlMark, unsafe.Pointer(s), unsafe.Pointer(delNode), i)
 			if delNode.dcasNext(i, next, next, false, true) && i == 0 {
 				sts.AddInt64(&sts.softDeletes, 1)
 				marked = true
 			}
+			verifYield(vpSlMarkLoad, unsafe.Pointer(s), unsafe.Pointer(delNode), i)
 			next, deleted = delNode.getNext(i)
 		}
 	}
@@ -391,6 +404,7 @@ func (s *Skiplist) DeleteNode2(n *Node, cmp CompareFn,
 func (s *Skiplist) deleteNode(n *Node, cmp CompareFn, buf *ActionBuffer, sts *Stats) bool {
 	itm := n.Item()
 	if s.softDelete(n, sts) {
+		verifYield(vpSlDelSearch, unsafe.Pointer(s), unsafe.Pointer(n), 0)
 		s.findPath(itm, cmp, buf, sts)
 		return true
 	}
